@@ -61,6 +61,7 @@ type lwDef struct {
 	measOff     int // measurement day offset (default 1)
 	measMode    int
 	constSeries bool // groundwater series with one level throughout: a constant groundwater depth
+	measShort   bool    // the measurement file has the short layout: readings for 0-9 dm only
 	rootDepth   int     // soil root depth (dm); 0 = min(profile, 12)
 	lat         float64 // latitude; 0 = default
 	initW, initN float64
@@ -125,6 +126,9 @@ func lwDefs() []lwDef {
 			fert: []proj.Fert{{Date: "2002-04-10", Amount: 90, Kind: "KAS"}}},
 		{name: "south-59-rape", soil: "sand20", gw: 99, et: 2, start: s2, days: 640, initW: 0.7, initN: 30, lat: -59.5,
 			rot:  []proj.CropEntry{{Crop: "WRA", Sow: "2002-03-01", Harvest: "2003-01-20", Rex: 50}, {Crop: "WG", Sow: "2003-03-10", Harvest: "2003-12-20", Rex: 50}, {Crop: "WW", Sow: "2004-09-01", Harvest: "2005-08-01"}}},
+		{name: "sand20-short-volumetric-sampling", soil: "sand20", gw: 99, et: 3, start: s1, days: 560, initW: 0.6, initN: 25, measOff: 210, measMode: 3, measShort: true,
+			rot:  []proj.CropEntry{{Crop: "WW", Sow: "2001-09-25", Harvest: "2002-08-05", Rex: 50}, {Crop: "SM", Sow: "2003-04-25", Harvest: "2003-10-10"}},
+			fert: []proj.Fert{{Date: "2002-03-01", Amount: 60, Kind: "KAS"}, {Date: "2002-04-10", Amount: 60, Kind: "KAS"}}},
 		{name: "loam-constant-series-12", soil: "silt20", gw: 99, series: [][2]float64{{-5, 12}, {100, 12}, {333, 12}, {500, 12}}, constSeries: true, et: 3, start: s2, days: 520, initW: 0.7, initN: 30,
 			rot:  []proj.CropEntry{{Crop: "SW", Sow: "2002-03-25", Harvest: "2002-08-20", Rex: 50}, {Crop: "WW", Sow: "2002-10-01", Harvest: "2003-08-05"}},
 			fert: []proj.Fert{{Date: "2002-04-10", Amount: 70, Kind: "KAS"}, {Date: "2003-03-10", Amount: 90, Kind: "KAS"}}},
@@ -234,6 +238,9 @@ func lwBuild(sp lwSpec) *lwInfo {
 	}
 	info.Exempt[info.Start] = true
 	info.Exempt[info.Start+mo] = true
+	if df.measShort {
+		p.Files = map[string]string{"endit_" + p.ID + ".txt": fmt.Sprintf("Plot_ID   Date     Nm03 Nm36 Nm69 M W0_3  W3_6  W6_9\nALLE      %s 14.7 12.2 05.3 %d 0.150 0.160 0.170\nend\n", proj.DateStr("DateDElong", proj.D(p.Meas.Date)), p.Meas.Mode)}
+	}
 	if df.gh != 0 {
 		p.Config["GroundWaterFrom"] = "polygonfile"
 		p.Config["GroundWaterPhase"] = "80"
